@@ -45,7 +45,7 @@ func run(args []string) {
 	fs.Var(&params, "param", "name=int harness parameter (repeatable)")
 	harness := fs.String("harness", "^Verif", "regexp of harness function names")
 	workers := fs.Int("workers", 16, "parallel workers")
-	solver := fs.String("solver", "z3", "z3 | z3-new | cvc5 | cvc5-int")
+	solver := fs.String("solver", "z3-new", "z3-new (5.1.0, default) | z3 (4.8.12) | cvc5 | cvc5-int")
 	feas := fs.Int("feas-ms", 10000, "feasibility query timeout")
 	oblig := fs.Int("oblig-ms", 120000, "obligation query timeout")
 	maxSteps := fs.Int("max-steps", 3000000, "instruction budget per path")
